@@ -117,7 +117,7 @@ C(f"{F}:Parser.extract_import_level", params={**P, "tokens": "seq[Tok]"}, return
   raises=[], pure=True, properties=["C01"])
 
 C(f"{F}:Parser.is_adjacent", params={"prev": "Tok", "curr": "Tok"}, returns="bool",
-  ensures=["result == (prev.end == curr.start)"], raises=[], pure=True, properties=["C06"])
+  ensures=["result == (prev.end == curr.start)"], raises=[], pure=True, properties=["C05", "C06"])
 
 # ---------------------------------------------------------------------------------------------- wrappers (C15, C17, C18)
 WCL = {"method": "rulefn", "method_name": "str"}
